@@ -288,6 +288,49 @@ def _mux(values, idx, iw, ow):
     return rec(0, 1 << iw, iw - 1)
 
 
+_CONST_TABLES = {}
+
+
+def _const_table(arr):
+    """(values, index width, value width) of a store chain of constants over a constant array, else None"""
+    i = arr.get_id()
+    if i in _CONST_TABLES:
+        return _CONST_TABLES[i][1]
+    T = _ARRAYS.get(i)
+    if T is not None:
+        r = (T.values, T.iw, T.ow)
+    else:
+        r = None
+        srt = arr.sort()
+        if z3.is_array(arr) and z3.is_bv_sort(srt.domain()) and z3.is_bv_sort(srt.range()) and srt.domain().size() <= 12:
+            iw, ow = srt.domain().size(), srt.range().size()
+            writes = {}
+            a = arr
+            ok_ = True
+            while True:
+                if z3.is_store(a):
+                    k, v = a.arg(1), a.arg(2)
+                    if not (z3.is_bv_value(k) and z3.is_bv_value(v)):
+                        ok_ = False
+                        break
+                    writes.setdefault(k.as_long(), v.as_long())       # the outermost store of an index wins
+                    a = a.arg(0)
+                elif z3.is_const_array(a) and z3.is_bv_value(a.arg(0)):
+                    d = a.arg(0).as_long()
+                    break
+                else:
+                    ok_ = False
+                    break
+            if ok_:
+                r = ([writes.get(k, d) for k in range(1 << iw)], iw, ow)
+    _CONST_TABLES[i] = (arr, r)       # keeps the term alive: ids stay unique
+    return r
+
+
+def _is_table_select(t):
+    return z3.is_select(t) and _const_table(t.arg(0)) is not None
+
+
 def demux(e):
     """rewrite every select from a constant table into a multiplexer: same meaning, no array theory.  z3 answers
     `unknown` after minutes on two 256-entry store-chains that a mux decides in milliseconds."""
@@ -300,9 +343,9 @@ def demux(e):
         if i in seen:
             continue
         seen.add(i)
-        if z3.is_select(t) and t.arg(0).get_id() in _ARRAYS:
-            T = _ARRAYS[t.arg(0).get_id()]
-            found[i] = (t, _mux(T.values, t.arg(1), T.iw, T.ow))
+        if _is_table_select(t):
+            vals, iw, ow = _const_table(t.arg(0))
+            found[i] = (t, _mux(vals, t.arg(1), iw, ow))
             todo.append(t.arg(1))
             continue
         todo.extend(t.children())
@@ -322,8 +365,10 @@ def _count_table_selects(e, limit):
         if i in seen:
             continue
         seen.add(i)
-        if z3.is_select(t) and t.arg(0).get_id() in _ARRAYS:
+        if _is_table_select(t):
             n += 1
+            todo.append(t.arg(1))
+            continue
         todo.extend(t.children())
     return n
 
@@ -337,7 +382,7 @@ def _has_table_select(e):
         if i in seen:
             continue
         seen.add(i)
-        if z3.is_select(t) and t.arg(0).get_id() in _ARRAYS:
+        if _is_table_select(t):
             return True
         todo.extend(t.children())
     return False
@@ -351,7 +396,7 @@ def check(*assertions, timeout_ms=60000, want_model=True, soft=False):
     t0 = time.time()
     # few table look-ups: decide the multiplexer form directly (array theory is what stalls); many: keep the compact
     # array form and fall back to multiplexers only when that comes back unknown
-    few = _ARRAYS and sum(_count_table_selects(e, 17) for e in es) <= 16
+    few = sum(_count_table_selects(e, 17) for e in es) <= 16
     forms = (True, False) if few else (False, True)
     r = "unknown"
     s = None
